@@ -5,6 +5,7 @@ SPEC = {
     "tests": [
         {"name": "TestGRPCJSON", "quick": 240, "thorough": 12000, "shards_quick": 8, "shards_thorough": 16, "timeout": 3000},
         {"name": "TestGRPCScenario", "quick": 320, "thorough": 16000, "shards_quick": 8, "shards_thorough": 16, "timeout": 3000},
+        {"name": "TestKnownWitness", "quick": 1, "thorough": 1, "shards": 1, "timeout": 300},
     ],
     "rule": ("rapid-generated grpc/json ammo over the example TargetService (Hello/Auth/List/Order): payload field subsets, unicode and "
              "template-looking strings, int64 as number (|v| <= 2^53) or as string (full range), camelCase or snake_case keys, unknown "
